@@ -79,6 +79,10 @@ def _slate_specs(tier):
                     continue
                 out.append((base, ("a", "b", "c", "d", "e"), s0, s1, nv, fb, ow))
     out.append((base, ("b", "a"), -1, 1, 2, None, None))
+    # data clipped to a proper subset of the columns (what the Kalman filter asks for), with and without fallbacks/overwrites
+    for fb, ow in ((None, None), ({"a": 9.0, "d": 8.0}, {"b": 7.0})) + ((({"a": 9.0}, {"a": 6.0}),) if tier == "thorough" else ()):
+        out.append((base, ("a", "b", "c", "d", "e"), -1, 3, 2, fb, ow, (1, 2, 3)))
+        out.append((base, ("a", "b", "c", "d", "e"), 0, 3, 1, fb, ow, (0, 1)))
     return out
 
 
@@ -99,20 +103,32 @@ def _eq_cell(got, want, symtab):
     return ("ok", None) if float(got) == float(want) else ("bad", None)
 
 
-def check_slate(run, ir, spec, names, s0, s1, nv, fb, ow):
-    key = f"slate:names={names}:span={s0}..{s1}:variants={nv}:fallbacks={fb}:overwrites={ow}"
-    case = dict(kind="slate", names=list(names), s0=s0, s1=s1, nv=nv, fb=fb, ow=ow)
+def _clip_kw(clip):
+    """clip = tuple of base column indexes: the input data outside them are clipped to NaN BEFORE fallbacks and overwrites are applied"""
+    return dict(clip_data_to_base_span=True, base_columns=tuple(clip)) if clip is not None else {}
+
+
+def check_slate(run, ir, spec, names, s0, s1, nv, fb, ow, clip=None):
+    key = f"slate:names={names}:span={s0}..{s1}:variants={nv}:fallbacks={fb}:overwrites={ow}" + (f":clip_to_base_columns={list(clip)}" if clip is not None else "")
+    case = dict(kind="slate", names=list(names), s0=s0, s1=s1, nv=nv, fb=fb, ow=ow, clip=list(clip) if clip is not None else None)
     db, syms = _box(ir, spec)
     span = _qq(ir, s0) >> _qq(ir, s1)
     with S.Path() as path:
-        ds = ir.Dataslate.from_databox(db, names, span, num_variants=nv, fallbacks=fb, overwrites=ow)
+        ds = ir.Dataslate.from_databox(db, names, span, num_variants=nv, fallbacks=fb, overwrites=ow, **_clip_kw(clip))
     item = {s[0]: s for s in spec}
     asks, n_sym = [], 0
+    _raw_input_cell = _input_cell
+    col_of = {k: j for j, k in enumerate(range(s0, s1 + 1))}
+
+    def _input_cell_(spec_item, k, v):
+        if clip is not None and k in col_of and col_of[k] not in clip:
+            return None
+        return _raw_input_cell(spec_item, k, v)
     for v in range(nv):
         data = ds._variants[v].data
         for r, name in enumerate(ds.names):
             for j, k in enumerate(range(s0, s1 + 1)):
-                want = _input_cell(item[name], k, v)
+                want = _input_cell_(item[name], k, v)
                 if ow and name in ow:
                     want = ow[name]
                 elif want is None and fb and name in fb:
@@ -135,7 +151,7 @@ def check_slate(run, ir, spec, names, s0, s1, nv, fb, ow):
             for k in range(s0 - 1, s1 + 2):
                 want = None
                 if s0 <= k <= s1:
-                    want = _input_cell(item[name], k, v)
+                    want = _input_cell_(item[name], k, v)
                     if ow and name in ow:
                         want = ow[name]
                     elif want is None and fb and name in fb:
@@ -619,12 +635,20 @@ def replay(case):
             names, s0, s1, nv, fb, ow = tuple(case["names"]), case["s0"], case["s1"], case["nv"], case["fb"], case["ow"]
             db, syms = _box(ir, spec)
             span = _qq(ir, s0) >> _qq(ir, s1)
-            ds = ir.Dataslate.from_databox(db, names, span, num_variants=nv, fallbacks=fb, overwrites=ow)
+            clip = case.get("clip")
+            ds = ir.Dataslate.from_databox(db, names, span, num_variants=nv, fallbacks=fb, overwrites=ow, **_clip_kw(clip))
             item = {s[0]: s for s in spec}
             back = ds.to_databox()
+            col_of = {k: j for j, k in enumerate(range(s0, s1 + 1))}
+            _raw = _input_cell
+
+            def _input_cell_r(spec_item, k, v):
+                if clip is not None and k in col_of and col_of[k] not in clip:
+                    return None
+                return _raw(spec_item, k, v)
 
             def want_of(name, k, v):
-                w = _input_cell(item[name], k, v)
+                w = _input_cell_r(item[name], k, v)
                 if ow and name in ow:
                     return ow[name]
                 if w is None and fb and name in fb:
